@@ -213,10 +213,20 @@ class CRS:
 
         if self.projected:
             _dir_renames = {"north": "y", "south": "y", "east": "x", "west": "x"}
+            axes = self._crs.axis_info
             units = {
                 _dir_renames.get(ax.direction, ax.direction): ax.unit_name
-                for ax in self._crs.axis_info
+                for ax in axes
             }
+            if ("x" not in units or "y" not in units) and len(axes) >= 2:
+                # polar CRSs: both axes point the same way (north/north or
+                # south/south), directions can not tell x from y. Go by the
+                # axis abbreviation, else by position (x first).
+                _abbrev_renames = {"E": "x", "X": "x", "N": "y", "Y": "y"}
+                names = [_abbrev_renames.get(str(ax.abbrev).upper()) for ax in axes[:2]]
+                if sorted(map(str, names)) != ["x", "y"]:
+                    names = ["x", "y"]
+                units = {name: ax.unit_name for name, ax in zip(names, axes[:2])}
             return units.get("y", ""), units.get("x", "")
 
         raise ValueError("Neither projected nor geographic")  # pragma: no cover
